@@ -93,6 +93,39 @@ let handle = function
     let mcrc = zcrc_of_zlist (List.map (fun b -> zb.(b land 255)) (Array.to_list log)) in
     Printf.sprintf "proto n=%d log=%d:%08x disk=%d:%08x buf=%d fatal=%b" (List.length fx) n mcrc
       (List.length s1.p_disk) (zcrc_of_zlist s1.p_disk) (List.length s1.p_buf) s1.p_fatal
+  | ["bkp"; dir; crc; bufsz] ->
+    (* Backup.backup_run: events before the call (dir/events), while the main file is copied (dir/eventsM),
+       at the end of WAL_COPY1 (dir/eventsA); prints the predicted image with timestamps/segment checksums masked *)
+    let ccrc = (int_of_string crc) land 1 = 1 in
+    let c = { c_bufsz = z_of_string bufsz; c_ccrc = ccrc } in
+    let s0 = { p_buf = []; p_log = zlist_of_string (read_file (dir ^ "/wal0")); p_disk = zlist_of_string (read_file (dir ^ "/db0"));
+               p_rfoff = Z0; p_stage = Z0; p_fatal = false } in
+    let evs f = List.filter_map (fun l -> match split_ws l with
+      | ["W"; off; h] -> Some (VWrite (z_of_string off, bytes_of_hex h))
+      | ["S"; off; v; len] -> Some (VSet (z_of_string off, z_of_string v, z_of_string len))
+      | ["C"; off; len; noff] -> Some (VCopy (z_of_string off, z_of_string len, z_of_string noff))
+      | ["R"; o; n] -> Some (VResize (z_of_string o, z_of_string n))
+      | ["Y"] -> Some VSynced
+      | ["P"; sync] -> Some (VSavepoint (Z0, sync = "1"))
+      | ["K"] -> Some (VCheckpoint Z0)
+      | _ -> None) (String.split_on_char '\n' (read_file (dir ^ "/" ^ f))) in
+    let (s1, _) = run c s0 (evs "events") in
+    let (img, s2) = backup_run c s1 Z0 Z0 (evs "eventsM") (evs "eventsA") in
+    let a = Array.of_list (List.map int_of_z img) in
+    let n = Array.length a in
+    let rd k o = let r = ref 0 in for i = k - 1 downto 0 do r := (!r lsl 8) lor a.(o + i) done; !r in
+    let mlen = if n >= 12 then rd 8 (n - 12) else 0 in
+    let pos = ref mlen in
+    (try while !pos < n - 12 do
+      let op = a.(!pos) in
+      if op = 127 then (for k = 4 to 7 do a.(!pos + k) <- 0 done; pos := !pos + 12)
+      else if op = 5 then (for k = 4 to 11 do a.(!pos + k) <- 0 done; pos := !pos + 12)
+      else if op = 1 then pos := !pos + 24 else if op = 2 then pos := !pos + 28
+      else if op = 3 then pos := !pos + 20 + rd 4 (!pos + 8)
+      else if op = 4 then pos := !pos + 20 else if op = 6 then pos := !pos + 4 else raise Exit
+    done with _ -> ());
+    let mcrc = zcrc_of_zlist (List.map (fun b -> zb.(b land 255)) (Array.to_list a)) in
+    Printf.sprintf "bkp image=%d:%08x main=%d livelog=%d rfoff=%s" n mcrc mlen (List.length s2.p_log) (string_of_z s2.p_rfoff)
   | ["img"; dir; crc] ->
     (* Backup.open_image on <dir>/bkp *)
     let img = zlist_of_string (read_file (dir ^ "/bkp")) in
